@@ -826,6 +826,58 @@ static ASMJIT_INLINE bool has_same_reg_type(const Reg* regs, size_t op_count) no
   return true;
 }
 
+// Selects the RW record of `inst_id` for `op_count` operands and fills `op_map` (operand -> index into the record's `op_info_index`).
+//
+// The records describe the explicit form of an instruction. When the operands given are exactly the operands of a generic record without
+// its fixed (implicit) registers / memory - the shapes emitted through the implicit emitter API such as `div(ecx)`, `cmpxchg(ebx, ecx)`,
+// `cmpxchg8b(mem)` or `blendvps(xmm1, xmm2)` - each given operand is described by its own entry instead of by its position.
+static ASMJIT_INLINE const InstDB::RWInfo& rw_info_of(InstId inst_id, size_t op_count, uint8_t* op_map) noexcept {
+  const InstDB::RWInfo* rows[2] = {
+    &InstDB::rw_info_b_table[InstDB::rw_info_index_b_table[inst_id]],
+    &InstDB::rw_info_a_table[InstDB::rw_info_index_a_table[inst_id]]
+  };
+  const InstDB::RWInfo* selected = rows[op_count == 2 ? 1 : 0];
+
+  for (uint32_t i = 0; i < Globals::kMaxOpCount; i++) {
+    op_map[i] = uint8_t(i);
+  }
+
+  auto entry_count = [](const InstDB::RWInfo& row) noexcept -> uint32_t {
+    uint32_t n = Globals::kMaxOpCount;
+    while (n && row.op_info_index[n - 1] == 0) {
+      n--;
+    }
+    return n;
+  };
+
+  if (selected->category <= uint32_t(InstDB::RWInfo::kCategoryGenericEx) && entry_count(*selected) != op_count) {
+    for (const InstDB::RWInfo* row : rows) {
+      uint32_t n = entry_count(*row);
+      uint32_t explicit_count = 0;
+      uint8_t map[Globals::kMaxOpCount] {};
+
+      if (row->category > uint32_t(InstDB::RWInfo::kCategoryGenericEx)) {
+        continue;
+      }
+
+      for (uint32_t i = 0; i < n; i++) {
+        if (!Support::test(InstDB::rw_info_op_table[row->op_info_index[i]].flags, OpRWFlags::kRegPhysId | OpRWFlags::kMemPhysId)) {
+          map[explicit_count++] = uint8_t(i);
+        }
+      }
+
+      if (explicit_count != n && explicit_count == op_count) {
+        for (uint32_t i = 0; i < explicit_count; i++) {
+          op_map[i] = map[i];
+        }
+        return *row;
+      }
+    }
+  }
+
+  return *selected;
+}
+
 Error query_rw_info(Arch arch, const BaseInst& inst, const Operand_* operands, size_t op_count, InstRWInfo* out) noexcept {
   // Only called when `arch` matches X86 family.
   ASMJIT_ASSERT(Environment::is_family_x86(arch));
@@ -848,8 +900,8 @@ Error query_rw_info(Arch arch, const BaseInst& inst, const Operand_* operands, s
   //     RW information / semantics.
   //   - There must be 2 tables otherwise the lookup index won't fit into 8 bits (there is more than 256 records
   //     of combined rw_info A and B).
-  const InstDB::RWInfo& inst_rw_info = op_count == 2 ? InstDB::rw_info_a_table[InstDB::rw_info_index_a_table[inst_id]]
-                                                     : InstDB::rw_info_b_table[InstDB::rw_info_index_b_table[inst_id]];
+  uint8_t op_map[Globals::kMaxOpCount];
+  const InstDB::RWInfo& inst_rw_info = rw_info_of(inst_id, op_count, op_map);
   const InstDB::RWInfoRm& inst_rm_info = InstDB::rw_info_rm_table[inst_rw_info.rm_info];
 
   out->_inst_flags = InstDB::inst_flags_table[additional_info._inst_flags_index];
@@ -877,7 +929,7 @@ Error query_rw_info(Arch arch, const BaseInst& inst, const Operand_* operands, s
     for (i = 0; i < op_count; i++) {
       OpRWInfo& op = out->_operands[i];
       const Operand_& src_op = operands[i];
-      const InstDB::RWInfoOp& rw_op_data = InstDB::rw_info_op_table[inst_rw_info.op_info_index[i]];
+      const InstDB::RWInfoOp& rw_op_data = InstDB::rw_info_op_table[inst_rw_info.op_info_index[op_map[i]]];
 
       op_type_mask |= Support::bit_mask<uint32_t>(src_op.op_type());
 
@@ -924,7 +976,7 @@ Error query_rw_info(Arch arch, const BaseInst& inst, const Operand_* operands, s
 
         // Aggregate values required to calculate valid Reg/M info.
         rm_max_size  = Support::max(rm_max_size, src_op.x86_rm_size());
-        rm_ops_mask |= Support::bit_mask<uint32_t>(i);
+        rm_ops_mask |= Support::bit_mask<uint32_t>(i) & ((uint32_t(inst_rm_info.rm_ops_mask) >> op_map[i]) << i);
       }
       else {
         const x86::Mem& mem_op = src_op.as<x86::Mem>();
@@ -969,7 +1021,6 @@ Error query_rw_info(Arch arch, const BaseInst& inst, const Operand_* operands, s
       }
     }
 
-    rm_ops_mask &= uint32_t(inst_rm_info.rm_ops_mask);
     if (rm_ops_mask && !inst.has_option(InstOptions::kX86_ER)) {
       Support::BitWordIterator<uint32_t> it(rm_ops_mask);
       do {
